@@ -1,5 +1,296 @@
-From Burrow Require Import Http ConfigRead.
-From BurrowGen Require Import RouteTable ReadSets.
-Theorem route_table_obligation : route_table_ok RouteTable.table RouteTable.router_opts = true.
+(* C16 -- The HTTP API answers every request with the documented envelope.
+   Statements only; proofs are in HttpProofs.v.  Model: Http.v (route table semantics, viper lookup, the
+   handlers of core/internal/httpserver over an abstract typed backend), tied to /repo on every run by
+     - the probe of checks/c16.py (requests through the real coordinator.router, scripted typed backend,
+       generated viper configuration; model = extracted Http.handle on the same lines),
+     - the route table and the per-handler request-type table regenerated from /repo by
+       /verif/translator/http (routes) into BurrowGen.RouteTable and re-checked below,
+     - a storage-backed run (real storage + evaluator coordinators) for the read-only half.
+   Quantification: all routes, all path-parameter strings (byte lists; at the server level all method and
+   path byte strings), any backend that keeps the contract [backend_typed], any configuration tree. *)
+Require Import List ZArith Bool String.
+Import ListNotations.
+From Burrow Require Import Http HttpProofs.
+From Burrow Require AMap Storage.
+From BurrowGen Require Import RouteTable.
+Open Scope Z_scope.
+
+(* ---- per-run table obligations (the tables are regenerated from /repo before this file is compiled) ---- *)
+
+(* every documented /v3 pattern is registered with its method and the handler the model describes, exactly
+   once; every registration has a model case; segments agree with patterns; the only router option set is
+   NotFound *)
+Theorem C16_route_table_obligation : route_table_ok RouteTable.table RouteTable.router_opts = true.
 Proof. vm_compute. reflexivity. Qed.
-Print Assumptions route_table_obligation.
+Print Assumptions C16_route_table_obligation.
+
+(* the Go handler of every modelled registration constructs exactly the storage request types the model
+   issues (and evaluator requests iff the model does); handlers registered under GET construct only
+   StorageFetch* types *)
+Theorem C16_request_types_obligation : request_types_ok RouteTable.handler_requests = true.
+Proof. vm_compute. reflexivity. Qed.
+Print Assumptions C16_request_types_obligation.
+
+(* ---- "the server answers without failing" ---- *)
+
+(* no handler's type assertion / nil dereference can fail against a backend that keeps its contract *)
+Theorem C16_handle_total :
+  forall (b : backend), backend_typed b ->
+  forall (r : route) (ps : params) (reqbody : Z) (cfg : tree),
+    snd (handle r ps reqbody b cfg) <> Crash.
+Proof. exact handle_total. Qed.
+Print Assumptions C16_handle_total.
+
+(* ... for every method and path byte string, through the router, on any table that passes the check *)
+Theorem C16_serve_total :
+  forall tbl opts, route_table_ok tbl opts = true ->
+  forall (b : backend), backend_typed b ->
+  forall (method path : bytes) (reqbody : Z) (cfg : tree),
+    snd (serve (compile_table tbl) method path reqbody b cfg) <> Crash.
+Proof. exact serve_total. Qed.
+Print Assumptions C16_serve_total.
+
+(* the storage half of the contract follows from the reply constructors of the storage model, for every
+   storage state in which FetchConsumer does not panic (that is C08/F6(iii)'s subject); the evaluator half
+   ([eval_ok]: non-nil status, finite float32) is assumed *)
+Theorem C16_storage_backend_typed :
+  forall (intern : bytes -> Z) (name_of : Z -> bytes) cf now st ev ready,
+    (forall c g, Storage.fetch_consumer cf now st c g <> Storage.Crashed) ->
+    (forall c g a, eval_ok (ev c g a) = true) ->
+    backend_typed (storage_backend intern name_of cf now st ev ready).
+Proof. exact storage_backend_typed. Qed.
+Print Assumptions C16_storage_backend_typed.
+
+(* FetchConsumer cannot panic in the storage model (Storage.v after /repo 54faa50), hence for ANY storage state
+   and time only the evaluator half is left as an assumption *)
+Theorem C16_fetch_consumer_no_crash :
+  forall cf now st c g, Storage.fetch_consumer cf now st c g <> Storage.Crashed.
+Proof. exact fetch_consumer_no_crash. Qed.
+Print Assumptions C16_fetch_consumer_no_crash.
+
+Theorem C16_storage_backend_typed_any_state :
+  forall (intern : bytes -> Z) (name_of : Z -> bytes) cf now st ev ready,
+    (forall c g a, eval_ok (ev c g a) = true) ->
+    backend_typed (storage_backend intern name_of cf now st ev ready).
+Proof. exact storage_backend_typed_any_state. Qed.
+Print Assumptions C16_storage_backend_typed_any_state.
+
+(* ---- "existing resources get 200 and a JSON object with error=false" ---- *)
+
+Theorem C16_envelope_exists :
+  forall (b : backend), backend_typed b ->
+  forall (r : route) (ps : params) (reqbody : Z) (cfg : tree),
+    is_v3 r = true ->
+    present r ps reqbody b cfg ->
+    exists st, snd (handle r ps reqbody b cfg) = Resp 200 true (BJson false true true st).
+Proof. exact envelope_exists. Qed.
+Print Assumptions C16_envelope_exists.
+
+(* ---- "unknown cluster / group / module / topic offsets get 404 (error=true; NOTFOUND on status routes)" ----
+
+   FULL STATEMENT (refuted for the two DELETE registrations, see below):
+     forall b, backend_typed b -> forall r ps reqbody cfg,
+       unknown_full r ps b cfg -> snd (handle r ps reqbody b cfg) = unknown_answer r.
+   Proved: the same with the guard [is_delete_route r = false], which excludes exactly the input class of the
+   recorded finding C16:delete-unknown-group. *)
+Theorem C16_envelope_unknown_partial :
+  forall (b : backend), backend_typed b ->
+  forall (r : route) (ps : params) (reqbody : Z) (cfg : tree),
+    is_delete_route r = false ->
+    unknown_full r ps b cfg ->
+    snd (handle r ps reqbody b cfg) =
+      if is_status_route r
+      then Resp 404 true (BJson false true true (Some 0))
+      else Resp 404 true (BJson true true true None).
+Proof. exact envelope_unknown_partial. Qed.
+Print Assumptions C16_envelope_unknown_partial.
+
+(* DELETE of a group of an empty storage is answered 200 error=false (replayed on the real code by every run
+   of checks/c16.py: KNOWN-FINDING C16:delete-unknown-group) *)
+Theorem C16_envelope_unknown_delete_refuted :
+  exists (b : backend) (ps : params) (reqbody : Z) (cfg : tree),
+    backend_typed b /\
+    unknown_full RConsumerDelete ps b cfg /\
+    snd (handle RConsumerDelete ps reqbody b cfg) = Resp 200 true (BJson false true true None) /\
+    snd (handle RConsumerDelete ps reqbody b cfg) <> unknown_answer RConsumerDelete.
+Proof. exact envelope_unknown_delete_refuted. Qed.
+Print Assumptions C16_envelope_unknown_delete_refuted.
+
+(* ---- "unrouted paths get 404" (as far as the model reaches: httprouter's own 301/307/405/OPTIONS answers
+   are router-level and trusted; this is the NotFound handler) ---- *)
+Theorem C16_unrouted_404 :
+  forall (tbl : list brow) (method path : bytes) (reqbody : Z) (b : backend) (cfg : tree),
+    dispatch tbl method path = None ->
+    serve tbl method path reqbody b cfg = ([], Resp 404 false (BJson true true false None)).
+Proof. exact unrouted_404. Qed.
+Print Assumptions C16_unrouted_404.
+
+(* all of the above at the level of the server, for arbitrary method and path bytes *)
+Theorem C16_serve_envelope :
+  forall tbl opts, route_table_ok tbl opts = true ->
+  forall (b : backend), backend_typed b ->
+  forall (method path : bytes) (reqbody : Z) (cfg : tree),
+    match dispatch (compile_table tbl) method path with
+    | None => serve (compile_table tbl) method path reqbody b cfg = ([], default_handler)
+    | Some (row, ps) =>
+        exists r, br_route row = Some r /\
+          serve (compile_table tbl) method path reqbody b cfg = handle r ps reqbody b cfg /\
+          snd (handle r ps reqbody b cfg) <> Crash /\
+          (is_v3 r = true -> present r ps reqbody b cfg ->
+             exists st, snd (handle r ps reqbody b cfg) = Resp 200 true (BJson false true true st)) /\
+          (is_delete_route r = false -> unknown_full r ps b cfg ->
+             snd (handle r ps reqbody b cfg) = unknown_answer r)
+    end.
+Proof. exact serve_envelope. Qed.
+Print Assumptions C16_serve_envelope.
+
+(* ---- "read requests never change what later reads return, apart from dropping expired groups" ---- *)
+
+(* HTTP half: a GET handler sends only Fetch-type storage requests and evaluator requests *)
+Theorem C16_get_is_readonly_http :
+  forall (r : route) (ps : params) (reqbody : Z) (b : backend) (cfg : tree),
+    is_get r = true ->
+    Forall (fun i => match i with
+                     | IStorage q => is_fetch_type (sq_type q) = true
+                     | IEval _ _ _ => True
+                     end) (fst (handle r ps reqbody b cfg)).
+Proof. exact get_is_readonly_http. Qed.
+Print Assumptions C16_get_is_readonly_http.
+
+(* storage half: Storage.step on a Fetch request of any kind returns the same state, or -- FetchConsumer on a
+   group whose last commit is already older than expire-group -- the state without that group, answering nil *)
+Theorem C16_fetch_step_readonly :
+  forall cf now st r st' rep,
+    storage_fetch_req r = true ->
+    Storage.step cf now st r = Storage.Done st' rep ->
+    st' = st \/
+    (exists c g, r = Storage.FetchConsumer c g /\ rep = Storage.RNil /\
+       exists cl grp,
+         AMap.get st c = Some cl /\ AMap.get (Storage.cl_consumer cl) g = Some grp /\
+         Storage.expired cf now (Storage.g_last grp) = true /\
+         st' = AMap.set st c (Storage.mkCluster (Storage.cl_broker cl) (AMap.remove (Storage.cl_consumer cl) g))).
+Proof. exact fetch_step_readonly. Qed.
+Print Assumptions C16_fetch_step_readonly.
+
+(* ... and after such a drop every Fetch that is not a listing of that cluster's groups and not about that
+   group is answered exactly as it would have been, at any later time *)
+Theorem C16_fetch_after_drop_same :
+  forall cf now st st' c g,
+    drops_expired_group cf now st st' c g ->
+    forall r now2,
+      storage_fetch_req r = true -> about_dropped c g r = false ->
+      reply_of_step (Storage.step cf now2 st' r) = reply_of_step (Storage.step cf now2 st r).
+Proof. exact fetch_after_drop_same. Qed.
+Print Assumptions C16_fetch_after_drop_same.
+
+Theorem C16_cluster_list_after_drop :
+  forall cf now st st' c g,
+    drops_expired_group cf now st st' c g ->
+    forall x, In x (AMap.keys st') <-> In x (AMap.keys st).
+Proof. exact cluster_list_after_drop. Qed.
+Print Assumptions C16_cluster_list_after_drop.
+
+(* the two halves linked: every request a GET handler sends -- directly or through the evaluator, which
+   issues StorageFetchConsumer for the same pair -- is a Fetch request of the storage model, on which
+   Storage.step is read-only in the sense above *)
+Theorem C16_get_is_readonly :
+  forall (intern : bytes -> Z) (r : route) (ps : params) (reqbody : Z) (b : backend) (cfg : tree),
+    is_get r = true ->
+    Forall (fun i =>
+              let q := match i with IStorage q => q | IEval c g _ => eval_storage_req c g end in
+              exists sr, to_storage_req intern q = Some sr /\ storage_fetch_req sr = true /\ step_readonly sr)
+           (fst (handle r ps reqbody b cfg)).
+Proof. exact get_is_readonly. Qed.
+Print Assumptions C16_get_is_readonly.
+
+(* ---- the tables: what the per-run obligations mean ---- *)
+
+Theorem C16_route_table_complete :
+  forall tbl opts, route_table_ok tbl opts = true ->
+    (forall m p, In (m, p) documented_v3 ->
+       exists r segs reg, is_v3 r = true /\ route_method r = m /\ route_pattern r = p /\
+                          In (RtRow m p segs (route_handler r) reg) tbl) /\
+    (forall r, count_rows (row_is r) tbl = 1%nat /\ count_rows (row_same_path r) tbl = 1%nat) /\
+    (forall row, In row tbl -> exists r, route_of_row row = Some r /\ row_is r row = true) /\
+    (forall o, In o opts -> fst o = "NotFound"%string).
+Proof. exact route_table_complete. Qed.
+Print Assumptions C16_route_table_complete.
+
+Theorem C16_every_row_has_envelope :
+  forall tbl opts, route_table_ok tbl opts = true ->
+  forall row, In row tbl ->
+    exists r, route_of_row row = Some r /\
+      forall (b : backend), backend_typed b -> forall (ps : params) (reqbody : Z) (cfg : tree),
+        snd (handle r ps reqbody b cfg) <> Crash /\
+        (is_v3 r = true -> present r ps reqbody b cfg ->
+           exists st, snd (handle r ps reqbody b cfg) = Resp 200 true (BJson false true true st)) /\
+        (is_delete_route r = false -> unknown_full r ps b cfg ->
+           snd (handle r ps reqbody b cfg) = unknown_answer r).
+Proof. exact every_row_has_envelope. Qed.
+Print Assumptions C16_every_row_has_envelope.
+
+Theorem C16_get_handlers_construct_only_fetch :
+  forall hr, request_types_ok hr = true ->
+  forall r, is_get r = true ->
+    exists tys ev pn, hreq_for (route_handler r) hr = Some (HReq (route_handler r) tys ev pn) /\
+                      (forall t, In t tys -> fetch_name t = true) /\
+                      (r <> RMetrics -> same_set tys (map req_type_name (route_req_types r)) = true /\ ev = route_evals r).
+Proof. exact get_handlers_construct_only_fetch. Qed.
+Print Assumptions C16_get_handlers_construct_only_fetch.
+
+(* ---- F9 (repaired by /repo commit cc4f2f8): the old module test answered 200 for a dotted name ---- *)
+Theorem C16_dotted_module_name_v0_refuted :
+  exists (cfg : tree) (name : bytes) (b : backend),
+    module_configured cfg s_storage name = false /\
+    snd (handle_v0 RCfgStorageDetail [(s_name, name)] 2 b cfg) = Resp 200 true (BJson false true true None).
+Proof. exact dotted_module_name_v0_refuted. Qed.
+Print Assumptions C16_dotted_module_name_v0_refuted.
+
+(* ---- non-vacuity: the hypotheses are met by concrete, non-trivial states ---- *)
+
+(* a typed backend with a cluster, a topic with two offsets and a group in status ERR *)
+Example C16_ex_typed_backend : backend_typed example_backend.
+Proof. exact typed_backend_exists. Qed.
+
+(* [present] / [unknown_full] hold of concrete requests, and the answers are the ones the theorems give *)
+Example C16_ex_exists :
+  present RTopicDetail [(s_cluster, pb "c1"); (s_topic, pb "orders")] 2 example_backend (Node KNil) /\
+  snd (handle RTopicDetail [(s_cluster, pb "c1"); (s_topic, pb "orders")] 2 example_backend (Node KNil))
+  = Resp 200 true (BJson false true true None).
+Proof. exact envelope_example_exists. Qed.
+
+Example C16_ex_unknown_topic :
+  unknown_full RTopicDetail [(s_cluster, pb "c1"); (s_topic, pb "nosuch")] example_backend (Node KNil) /\
+  snd (handle RTopicDetail [(s_cluster, pb "c1"); (s_topic, pb "nosuch")] 2 example_backend (Node KNil))
+  = Resp 404 true (BJson true true true None).
+Proof. exact envelope_example_unknown_topic. Qed.
+
+Example C16_ex_status :
+  snd (handle RConsumerStatus [(s_cluster, pb "c1"); (s_consumer, pb "billing")] 2 example_backend (Node KNil))
+  = Resp 200 true (BJson false true true (Some 3))
+  /\ snd (handle RConsumerStatus [(s_cluster, pb "c1"); (s_consumer, pb "nogroup")] 2 example_backend (Node KNil))
+  = Resp 404 true (BJson false true true (Some 0)).
+Proof. exact envelope_example_status. Qed.
+
+(* a configured module (case-insensitively) and a dotted non-module *)
+Example C16_ex_module :
+  present RCfgStorageDetail [(s_name, pb "LOCAL")] 2 example_backend f9_cfg /\
+  unknown_full RCfgStorageDetail [(s_name, pb "local.intervals")] example_backend f9_cfg.
+Proof. exact envelope_example_module. Qed.
+
+(* the contract is needed: FetchClusters answered with nil panics handleClusterList *)
+Example C16_ex_untyped_backend_crashes :
+  snd (handle RClusterList [] 2 (world_backend example_world 1 true) (Node KNil)) = Crash.
+Proof. exact untyped_backend_crashes. Qed.
+
+(* a storage state where a Fetch does drop an expired group, and on which the storage-backed backend is typed *)
+Example C16_ex_fetch_drops_expired :
+  Storage.step example_cf 100 example_state (Storage.FetchConsumer 1 7)
+  = Storage.Done [(1, Storage.mkCluster [] [])] Storage.RNil /\
+  drops_expired_group example_cf 100 example_state [(1, Storage.mkCluster [] [])] 1 7.
+Proof. exact fetch_drops_expired_example. Qed.
+
+Example C16_ex_storage_backend_typed :
+  backend_typed (storage_backend (fun _ => 1) (fun _ => []) example_cf 0 example_state
+                                 (fun _ _ _ => Some (mk_gstatus 1 true)) true).
+Proof. exact storage_backend_typed_example. Qed.
